@@ -726,6 +726,10 @@ func fieldPath(t, recv *tf.Term) (string, bool) {
 }
 
 func checkGuardCoversUse(p *core.Program, r *core.Report, ps *types.Named) {
+	checkGuardCoversUseRule(p, r, ps, "O9.4")
+}
+
+func checkGuardCoversUseRule(p *core.Program, r *core.Report, ps *types.Named, rule string) {
 	if ps == nil {
 		return
 	}
@@ -762,7 +766,7 @@ func checkGuardCoversUse(p *core.Program, r *core.Report, ps *types.Named) {
 			}
 		}
 		if vcall == nil {
-			r.Violation("O9.4", name+": shape validation", p.Pos(fn.Pos()), "no dimension validation of the request parameters is called: short arrays make the prover index out of range (the handler crashes instead of answering 400 proving_error)")
+			r.Violation(rule, name+": shape validation", p.Pos(fn.Pos()), "no dimension validation of the request parameters is called: short arrays make the prover index out of range (the handler crashes instead of answering 400 proving_error)")
 			continue
 		}
 		r.AnalysedFn(core.FuncName(validator))
@@ -793,7 +797,7 @@ func checkGuardCoversUse(p *core.Program, r *core.Report, ps *types.Named) {
 				}
 			}
 		}
-		r.Check(vErrOK, "O9.4", name+": validation error returns", p.Pos(vcall.Pos()), "validator error ⇒ return (nil, err)", "the validator's error does not lead to an error return before the arrays are indexed")
+		r.Check(vErrOK, rule, name+": validation error returns", p.Pos(vcall.Pos()), "validator error ⇒ return (nil, err)", "the validator's error does not lead to an error return before the arrays are indexed")
 		// uses: index sites on parameter-derived slices
 		nUse := 0
 		var uncovered []string
@@ -837,7 +841,7 @@ func checkGuardCoversUse(p *core.Program, r *core.Report, ps *types.Named) {
 		}
 		_ = psT
 		r.Count("guarded index sites", nUse)
-		r.Check(len(uncovered) == 0, "O9.4", name+": every index is covered by an enforced length", p.Pos(vcall.Pos()),
+		r.Check(len(uncovered) == 0, rule, name+": every index is covered by an enforced length", p.Pos(vcall.Pos()),
 			fmt.Sprintf("%d index sites ⊆ {%s}", nUse, strings.Join(gdesc, ", ")), "index sites not covered by the validator: "+strings.Join(uncovered, "; ")+strings.Join(notes, "; "))
 	}
 	r.Floor("prover methods", 2)
